@@ -27,6 +27,10 @@ def run(chk):
     chk.not_decided = "that receive() eventually returns in every interleaving (liveness); bounded send-side back-pressure during close; timer arithmetic."
     for sp in SPECS:
         one(chk, repo, sp)
+    # no data frame follows the close frame: decided on the writer (shared with C11)
+    from rules import C11
+
+    chk.include(C11.run, ("C11.closing",), ("C11.closing", "C13.noframeafterclose"))
 
 
 def one(chk, repo, sp):
